@@ -28,7 +28,7 @@ func (propC11) NewParams() any { return &C11Params{} }
 
 func (propC11) Plan(tier string) (int, int) {
 	if tier == "thorough" {
-		return 150000, 0
+		return 500000, 0
 	}
 	return 10000, 0
 }
